@@ -1,4 +1,5 @@
 """C02 - power is credited exactly for proven, healthy, unexpired sectors (narrow clauses)."""
+import re
 from core import *
 from rules import *
 import provtable
@@ -93,8 +94,12 @@ def run(prog, rep, tier, cfg):
     X.guard('K6b', 'power:count-non-negative', AC, sc, m_rel('lt', ['F:State.miner_above_min_power_count'], ['V:0'], False), 'negative above-minimum count => Err')
     X.value_from('K10', 'power:new-raw', AC, X.agg_field_atoms(AC, 'Claim', 'raw_byte_power'), ['F:Claim.raw_byte_power', 'P:5', 'C:::add'], 'new raw = old raw + delta', forbid=['P:6'])
     X.value_from('K10', 'power:new-qa', AC, X.agg_field_atoms(AC, 'Claim', 'quality_adj_power'), ['F:Claim.quality_adj_power', 'P:6', 'C:::add'], 'new qa = old qa + delta', forbid=['P:5'])
-    thr = [c for c in conds(AC, prog.slicer) if c.kind == 'rel' and c.rel == 'lt' and has_atom(c.B, 'C:consensus_miner_min_power') and has_atom(c.A, 'F:Claim.raw_byte_power')]
-    rep.need('K6b', 'power:threshold-bookkeeping', len(thr) >= 3, 'the consensus-minimum bookkeeping branches on (prev_below, still_below) (found %d tests)' % len(thr), X.loc(AC))
+    # the consensus-minimum bookkeeping compares both the old and the new claim's raw power with the minimum (as tested conditions or
+    # as bools matched later - `if`-chain and `match (prev_below, still_below)` alike)
+    thr = [c for c in AC.calls if ((c.defp or '').endswith(('PartialOrd::lt', 'PartialOrd::ge', 'PartialOrd::le', 'PartialOrd::gt')) or re.search(r'Partial(Ord|Eq).*>::(lt|le|gt|ge)$', c.callee or '')) and len(c.args) == 2
+           and has_atom(prog.slicer.operand(AC, c.args[0]) | prog.slicer.operand(AC, c.args[1]), 'C:consensus_miner_min_power')
+           and has_atom(prog.slicer.operand(AC, c.args[0]) | prog.slicer.operand(AC, c.args[1]), 'F:Claim.raw_byte_power')]
+    rep.need('K6b', 'power:threshold-bookkeeping', len(thr) >= 2, 'the consensus-minimum bookkeeping compares the old and the new raw power with the minimum (found %d comparisons)' % len(thr), X.loc(AC))
     for c in AC.calls:
         if (c.callee or '').endswith('consensus_miner_min_power'):
             rep.need('K8', 'power:min-power-propagated', result_fate(AC, c) == 'try', 'propagated', c.where)
